@@ -855,6 +855,8 @@ fn exec_c(spec: &OpSpec, rootfd: i32) -> Outcome {
                 let (fd, path) = match class.as_str() {
                     "negfd" => (-1, good.as_ptr()),
                     "negfd2" => (-9, good.as_ptr()),
+                    // AT_FDCWD: a negative value with a meaning for the kernel - "the current directory"
+                    "atfdcwd" => (libc::AT_FDCWD, good.as_ptr()),
                     "nullpath" => (rootfd, null),
                     _ => (rootfd, good.as_ptr()),
                 };
